@@ -23,7 +23,7 @@ ASSUMPTIONS = [
     "for tiers that exist only in A, appendTextgrid's tier span is not pinned by the statement and is not compared",
 ]
 REQUIRED_CLASSES = ["edit:clipped", "edit:dropped", "edit:becomes_empty", "edit:empty_tier", "edit:leaves_span",
-                    "append_tg:names_differ", "append_tier:empty_B"]
+                    "append_tg:names_differ", "append_tier:empty_B", "append_tg:A_starts_after_zero"]
 
 
 def model_edit(spec, off):
@@ -206,6 +206,8 @@ def run_append_tg(case):
         cl.append("names_disjoint")
     if any(not t["entries"] for t in B_s["tiers"]):
         cl.append("empty_tier_in_B")
+    if A_s["minT"] > 0:
+        cl.append("A_starts_after_zero")
     return {"classes": cl, "nontrivial": True}
 
 
@@ -238,7 +240,7 @@ def append_tier_cases(draw):
 @st.composite
 def append_tg_cases(draw):
     style = draw(gen.STYLES_ARITH)
-    A = draw(gen.textgrid(style=style, max_tiers=3))
+    A = draw(gen.textgrid(style=style, max_tiers=3, late_start=True))
     B = draw(gen.textgrid(style=style, max_tiers=3))
     # rename B's tiers: same name (type forced equal), or a fresh name
     types = {t["name"]: t["type"] for t in A["tiers"]}
